@@ -299,7 +299,7 @@ CHECKS = {
         "min_obs": {"pdep_pext_pairs": 5000000, "codec_cases": 20000, "runs_with_bmi2": 1, "runs_portable_path": 1},
     },
     "C15": {
-        "scenarios": [("C15-close", "vsim"), ("C15-deadline", "vsim"), ("C15-wdeadline", "vsim"), ("C15-api", "vsim"), ("C15-active", "vsim"), ("C15-active", "vrace", 0.25), ("C15-race", "vrace"), ("C01-tcp", "vrace", 0.15)],
+        "scenarios": [("C15-close", "vsim"), ("C15-deadline", "vsim"), ("C15-wdeadline", "vsim"), ("C15-api", "vsim"), ("C15-apiclose", "vsim"), ("C15-active", "vsim"), ("C15-active", "vrace", 0.25), ("C15-race", "vrace"), ("C01-tcp", "vrace", 0.15)],
         "races": True,
         "rule": "(a) 1-3 sessions (TCP multiplexed on one connection, or UDP) with a Read parked at each end of every session and, in a "
                 "third of the TCP cases, a writer parked behind back-pressure on 8 KiB pipes; after an idle period of 0/3/7/70/130 "
